@@ -77,6 +77,16 @@ func alphabet(quick bool) []refcodec.Msg {
 			a = append(a, rawpeer.Tread(0, f, 0, 8), rawpeer.Twrite(0, f, 0, []byte("w")), rawpeer.Tsetattr(0, f, 1, 0o600, 0))
 		}
 		a = append(a, rawpeer.Tgetattr(0, f))
+		// the other path-dependent requests a fenced fid must refuse without
+		// reaching the backend
+		if f != 1 {
+			a = append(a, rawpeer.Tsymlink(0, f, "a", "t"), rawpeer.Tmknod(0, f, "a", 0o10644), rawpeer.Treadlink(0, f))
+			g := f + 1
+			if g > fids[len(fids)-1] {
+				g = 2
+			}
+			a = append(a, rawpeer.Tlink(0, f, g, "b"))
+		}
 	}
 	return a
 }
